@@ -480,8 +480,8 @@ def replay(case, sub=None):
 
 def run_shard(ctx):
     from hypothesis import strategies as st
-    n_num = 2500 if ctx.tier == "quick" else 40000
-    n_bld = 500 if ctx.tier == "quick" else 6000
+    n_num = 2500 if ctx.tier == "quick" else 120000
+    n_bld = 500 if ctx.tier == "quick" else 20000
 
     def body_num(case):
         v = check_number(case["desc"], case["dp"])
